@@ -743,6 +743,10 @@ pub fn unmanaged_scenarios(tier: Tier, with_close: bool) -> Vec<Scenario> {
         v.push(uconc("close-vs-take-return/vec2", "close() vs take and return", p, f, UBuild::FromVec(2), vec![vec![UOp::TryGet, UOp::Take, UOp::TryGet, UOp::Release], vec![UOp::Close, UOp::Status]]));
         v.push(uconc("close-twice/vec2", "two close() calls on two threads over a pool holding objects, then try_get / try_add: neither call may return before the pool is empty", p, f, UBuild::FromVec(2), vec![vec![UOp::Close, UOp::TryGet], vec![UOp::Close, UOp::TryAdd]]));
         v.push(uconc("close-vs-remove/vec1", "close() vs remove()/try_remove()/timeout_get(0)", p, f, UBuild::FromVec(1), vec![vec![UOp::TryRemove, UOp::TimeoutGet0, UOp::TimeoutRemove0], vec![UOp::Close, UOp::Close]]));
+        // "never with a panic" also without close(): the calls whose bookkeeping
+        // meets in the size / available counters, on an empty pool
+        v.push(uconc("add-vs-remove/new1", "add()/try_add() racing with remove()/try_remove() on an empty pool: no call may panic", p, f, UBuild::New(1), vec![vec![a(), UOp::TryAdd], vec![UOp::Remove, UOp::TryRemove]]));
+        v.push(uconc("add-vs-get-take/new1", "add() racing with get() + take() on an empty pool, then close()", p, f, UBuild::New(1), vec![vec![a(), UOp::Close], vec![g(), UOp::Take]]));
         for (name, build) in [("new1", UBuild::New(1)), ("vec2", UBuild::FromVec(2)), ("new0", UBuild::New(0))] {
             v.push(useq(&format!("close-histories/{}", name), "close() at every position of every history of unmanaged pool operations", if b.thorough { 2 } else { 1 }, USeqScenario { build, depth: if b.thorough { 8 } else { 6 }, max_tasks: 2, close: true, cancel: true, bfs: false }));
         }
